@@ -327,6 +327,30 @@ var Scenarios = []Scenario{
 				return fmt.Sprint(res), bad, nil
 			}
 	}},
+	{Name: "S8-two-writers-of-different-globals", MinOutcomes: 1, New: func(iter int) ([]func(), func() (string, string, []Event)) {
+		in := jet.NewInMemLoader()
+		in.Set("/k.jet", `{{k1}}{{k2}}`)
+		set := jet.NewSet(in)
+		set.AddGlobal("k0", "zero")
+		return []func(){
+				func() { set.AddGlobal("k1", "one") },
+				func() { set.AddGlobal("k2", "two") },
+				func() { set.LookupGlobal("k0") },
+			}, func() (string, string, []Event) {
+				_, ok1 := set.LookupGlobal("k1")
+				_, ok2 := set.LookupGlobal("k2")
+				_, ok0 := set.LookupGlobal("k0")
+				bad := ""
+				if !ok1 || !ok2 || !ok0 {
+					bad = fmt.Sprintf("a global was lost: k0=%v k1=%v k2=%v after both AddGlobal calls returned", ok0, ok1, ok2)
+				} else if t, err := set.GetTemplate("/k.jet"); err != nil {
+					bad = err.Error()
+				} else if out, err := exec(t, nil, nil); err != nil || out != "onetwo" {
+					bad = fmt.Sprintf("rendering both globals gives %q %v", out, err)
+				}
+				return fmt.Sprint(ok0, ok1, ok2), bad, nil
+			}
+	}},
 	{Name: "S7-first-include-of-a-template-from-two-executions", MinOutcomes: 1, New: func(iter int) ([]func(), func() (string, string, []Event)) {
 		in := jet.NewInMemLoader()
 		in.Set("/part.jet", `part({{.}})`)
